@@ -209,4 +209,8 @@ def k_gpgverify(a, got):
 
 
 KINDS = {'pgp.sighash': k_sighash, 'pgp.sigverify': k_sigverify, 'pgp.seipd': k_seipd, 'pgp.aead': k_aead,
-         'pgp.gpgimport': k_gpgimport, 'pgp.gpgverify': k_gpgverify}
+         'pgp.gpgimport': k_gpgimport, 'pgp.gpgverify': k_gpgverify,
+         # same judges under a separate name so that this configuration has its own finding key
+         'pgp.aead.multi-chunk-nonce': k_aead,
+         'pgp.sigverify.ecdsa-digest-longer-than-order': k_sigverify,
+         'pgp.gpgverify.ecdsa-digest-longer-than-order': k_gpgverify}
